@@ -10,4 +10,4 @@ if [ -n "$(git -C /repo status --short)" ]; then echo "WARNING: /repo not clean 
 NV=$(echo "$OUT" | grep -c '^VIOLATION')
 echo "SEED $(basename $(dirname $PATCH))/$(basename $PATCH) check=$ID tier=$TIER exit=$RC violation_lines=$NV"
 echo "$OUT" | grep -E "sig=" | sed 's/ expected=.*//' | sort | uniq -c | sort -rn | head -4
-rm -f /verif/replays/*.json
+find /verif/replays -name "*.json" -delete
